@@ -506,7 +506,21 @@ def family(name, rng, sid):
         adds = [o for o in sc["clients"][0][:w] if o["op"] == "add"]
         for o in adds:
             o.pop("rm", None)
-        rng.choice(adds)["fault"] = {"kind": "fill", "at": -rng.randint(1, 3)}   # at the k-th frame after the done channel is closed
+        victim = rng.choice(adds)
+        if len(adds) > 1 and rng.random() < 0.5:
+            # the failing bar is the one a frame is collected from first and stands outside the width exchange; the others, all
+            # finished by then (their rows are drawn by the per-frame goroutines), share a column whose distributor moves last
+            victim = adds[-1]
+            for o in adds:
+                o.pop("prio", None)
+                for key in ("pre", "app"):
+                    for d in o.get(key, []):
+                        if o is victim:
+                            d["sync"] = False
+                if o is not victim:
+                    o.setdefault("pre", []).insert(0, decor_spec(rng, True))
+            sc["sched"]["bias"] = ["dist:"]
+        victim["fault"] = {"kind": "fill", "at": -rng.randint(1, 3)}   # at the k-th frame after the done channel is closed
         return sc
     if name == "stoppop":
         # pop-completed container shut down while bars are at staggered stages: no-pop, remove-on-complete and
